@@ -1,5 +1,6 @@
 import BasicModel.Thm.Tables
 import BasicModel.Lemmas.LexCaseLine
+import BasicModel.Lemmas.SpellingSteps
 /-
   C16 — spelling variants of a line mean the same (lexer part).
 
@@ -206,6 +207,348 @@ theorem tables_generated :
     (∀ p ∈ Gen.wordText, Word.text p.1 = p.2.toList) ∧ (∀ p ∈ Gen.operatorText, Operator.text p.1 = p.2.toList) :=
   ⟨Thm.Tables.keywords_generated, Thm.Tables.minutia_generated, Thm.Tables.word_text_generated,
    Thm.Tables.operator_text_generated⟩
+
+/-! ### spelling variants in arbitrary contexts (whole lines)
+
+  "Same meaning" at the lexer level is equality of the line number and of `sig ts`, the token list
+  without its blank runs: `BasicParser::next` (`Parse.nextLoop`), the only reader of the parser's
+  token list, skips them (`parser_skips_blanks`).  The parse-level corollaries are therefore stated
+  on `sig` directly (`respelled_parse`); the lift "`parse ts` = `parse (sig ts)` up to the recorded
+  columns" through the whole parser is NOT proved here.
+
+  A context is `pre ++ <variant> ++ post`.  `Cut (lineBody pre) A c` characterises the scanner state
+  after `pre`: the tokens `A` are out, the remark flag is off, no string literal, name or numeral is
+  open, and the next token starts at the character `c` (`lineBody pre` is `pre` without the
+  line-number prefix; `Cut.of_printTokens` gives junctions after any printed remark-free canonical
+  token list, `Cut.append` composes them). -/
+
+open Lemmas.Spelling
+
+/-- the parser's token reader hands out the same token, and leaves the same significant tokens and
+    remark flag, whether or not the blank runs are there; only the columns differ -/
+theorem parser_skips_blanks (ts : List Token) (rem : Bool) (cs ce cs' ce' : Nat) :
+    (Parse.nextLoop ts rem cs ce).1 = (Parse.nextLoop (sig ts) rem cs' ce').1 ∧
+    sig (Parse.nextLoop ts rem cs ce).2.1 = (Parse.nextLoop (sig ts) rem cs' ce').2.1 ∧
+    (Parse.nextLoop ts rem cs ce).2.2.1 = (Parse.nextLoop (sig ts) rem cs' ce').2.2.1 :=
+  nextLoop_sig ts rem cs ce cs' ce'
+
+example : sig [.word .print, .whitespace 2, .ident (.plain ['X'])] = [.word .print, .ident (.plain ['X'])] := by
+  decide
+
+/-- … and it cannot tell the two remark markers apart: with `'` rewritten to `REM` it hands out the
+    same token with the same columns and leaves the same (rewritten) rest -/
+theorem parser_ignores_marker (ts : List Token) (rem : Bool) (cs ce : Nat) :
+    Parse.nextLoop (ts.map normTok) rem cs ce =
+      ((Parse.nextLoop ts rem cs ce).1, (Parse.nextLoop ts rem cs ce).2.1.map normTok,
+        (Parse.nextLoop ts rem cs ce).2.2) :=
+  nextLoop_normTok ts rem cs ce
+
+example : [Token.word .rem2, .unknown ['x']].map normTok = [.word .rem1, .unknown ['x']] := rfl
+
+/-- `Cut` does exclude the inside of string literals and of remarks: there `?` is text, not PRINT -/
+theorem no_junction_in_string_or_remark (A : List Token) :
+    ¬ Cut "\"".toList A '?' ∧ ¬ Cut "'".toList A '?' ∧ ¬ Cut "REM ".toList A '?' := by
+  have key : ∀ (pre : Str) (t : Token), t ≠ .word .print →
+      lexFrom (pre ++ ['?']) false = [t] ∨ (∃ u, lexFrom (pre ++ ['?']) false = [u, t]) → ¬ Cut pre A '?' := by
+    intro pre t ht hl hc
+    have h := hc []
+    rw [show lexFrom ['?'] false = [.word .print] from by decide +kernel] at h
+    have h' := congrArg List.getLast? h
+    rcases hl with hl | ⟨u, hl⟩ <;> rw [hl] at h' <;> simp at h' <;> exact ht h'
+  refine ⟨key _ (.literal (.string ['?'])) (by simp) (Or.inl (by decide +kernel)),
+    key _ (.unknown ['?']) (by simp) (Or.inr ⟨.word .rem2, by decide +kernel⟩),
+    key _ (.unknown [' ', '?']) (by simp) (Or.inr ⟨.word .rem1, by decide +kernel⟩)⟩
+
+/-- the name `A` -/
+def nameA : Token := .ident (.plain ['A'])
+
+theorem nameA_printable : Printable nameA :=
+  ⟨⟨['A'], [], none⟩, ⟨by decide, by decide, by decide, by decide, by decide +kernel⟩, rfl, rfl⟩
+
+/-- the tokens of `IF A THEN ` -/
+def thenCtx : List Token :=
+  [.word .if, .whitespace 1, nameA, .whitespace 1, .word .then, .whitespace 1]
+
+/-- `IF A THEN ` is a junction in front of `?`, `P`, `'`, `R` and `G` -/
+theorem thenCtx_cut (c : Char) (hc : c = '?' ∨ c = 'P' ∨ c = '\'' ∨ c = 'R' ∨ c = 'G') :
+    Cut "IF A THEN ".toList (thenCtx.flatMap rawOf) c := by
+  rw [show "IF A THEN ".toList = printTokens thenCtx from by decide]
+  rcases hc with rfl | rfl | rfl | rfl | rfl <;>
+  exact Cut.of_printTokens thenCtx _
+    ⟨by decide, by decide, trivial, (by show AlphaBoundary _; decide),
+     by decide, by decide, (by show 0 < 1; decide), (by show ∀ c ∈ _, _; decide),
+     by decide, by decide, nameA_printable, (by show AlphaBoundary _; decide),
+     by decide, by decide, (by show 0 < 1; decide), (by show ∀ c ∈ _, _; decide),
+     by decide, by decide, trivial, (by show AlphaBoundary _; decide),
+     by decide, by decide, (by show 0 < 1; decide), (by show ∀ c ∈ _, _; decide), trivial⟩
+
+theorem thenCtx_body : lineBody "10 IF A THEN ".toList = "IF A THEN ".toList := by decide +kernel
+
+/-- C16 (1), `?` ≡ `PRINT` in ANY context: between a junction and an arbitrary rest of the line,
+    `?` and `PRINT` followed by `sep` give the same line number and the same significant tokens.
+    `sep` is any run of blanks; it may be empty unless `post` starts with a letter (`PrintSep`): a
+    letter right after `PRINT` is crunched in the same call of `alphabetic()`, which mostly gives
+    the same tokens (`PRINTX` is `PRINT`,`X`) but not always (`print_glued_remark`). -/
+theorem print_in_context (pre post sep : Str) (A : List Token) (hq : Cut (lineBody pre) A '?')
+    (hp : Cut (lineBody pre) A 'P') (hs : PrintSep sep post) :
+    (lex (pre ++ '?' :: post)).1 = (lex (pre ++ ("PRINT".toList ++ (sep ++ post)))).1 ∧
+    sig (lex (pre ++ '?' :: post)).2 = sig (lex (pre ++ ("PRINT".toList ++ (sep ++ post)))).2 :=
+  print_alias pre post sep A hq hp hs
+
+/-- … for instance after `10 IF A THEN `, whatever follows -/
+example (post : Str) :
+    sig (lex ("10 IF A THEN ".toList ++ '?' :: post)).2 =
+      sig (lex ("10 IF A THEN ".toList ++ ("PRINT".toList ++ (" ".toList ++ post)))).2 :=
+  (print_in_context "10 IF A THEN ".toList post " ".toList _
+    (thenCtx_body ▸ thenCtx_cut '?' (by decide)) (thenCtx_body ▸ thenCtx_cut 'P' (by decide))
+    ⟨by decide, by intro h; exact absurd h (by decide)⟩).2
+
+/-- the side condition of (1) cannot be dropped: glued to `PRINT`, `REM` is not the first token of
+    its `alphabetic()` queue and does not start a remark; after `?` it does -/
+theorem print_glued_remark :
+    sig (lex "PRINTREM x".toList).2 = [.word .print, .word .rem1, .ident (.plain ['X'])] ∧
+    sig (lex "?REM x".toList).2 = [.word .print, .word .rem1, .unknown " x".toList] := by
+  decide +kernel
+
+example : sig (lex "PRINTX".toList).2 = sig (lex "?X".toList).2 := by decide +kernel
+
+/-- C16 (1), exactly: glued to a letter, `PRINT` and `?` give the VERY SAME line if (and, by
+    `print_glued_remark`, only if) the first token the letters give on their own is not `REM`:
+    `alphabetic()` finds `PRINT` first (leftmost; no other reserved word starts with `P`) and scans
+    the rest as it would on its own; only the remark flag looks at the position in the queue -/
+theorem print_glued_in_context (pre : Str) (k : Char) (tl : List Char) (A : List Token)
+    (hq : Cut (lineBody pre) A '?') (hp : Cut (lineBody pre) A 'P') (hk : isAlpha k = true)
+    (hfirst : ∃ t ts, (alphabetic (k :: tl)).1 = t :: ts ∧ t ≠ .word .rem1) :
+    lex (pre ++ '?' :: k :: tl) = lex (pre ++ ("PRINT".toList ++ k :: tl)) :=
+  print_alias_glued pre k tl A hq hp hk hfirst
+
+example : lex "10 IF A THEN ?X1$;Y".toList = lex "10 IF A THEN PRINTX1$;Y".toList :=
+  print_glued_in_context "10 IF A THEN ".toList 'X' "1$;Y".toList _
+    (thenCtx_body ▸ thenCtx_cut '?' (by decide)) (thenCtx_body ▸ thenCtx_cut 'P' (by decide)) (by decide)
+    ⟨.ident (.string "X1$".toList), [], by decide +kernel, by decide⟩
+
+/-- C16 (2), `'` ≡ `REM` in any context: the tokens before the marker and the remark text are the
+    same; the marker that was typed stays in the listing (`rem2` / `rem1`).  The remark text must
+    not start with a letter (glued to `REM` it is crunched as a name: known finding K4,
+    `Thm.C05.remark_glued_to_REM`). -/
+theorem rem_in_context (pre post : Str) (A : List Token) (hq : Cut (lineBody pre) A '\'')
+    (hr : Cut (lineBody pre) A 'R') (hb : ∀ c ∈ post.head?, isAlpha c = false) :
+    (lex (pre ++ '\'' :: post)).1 = (lex (pre ++ ("REM".toList ++ post))).1 ∧
+    ∃ X, (lex (pre ++ '\'' :: post)).2 = X ++ .word .rem2 :: remarkTail post ∧
+      (lex (pre ++ ("REM".toList ++ post))).2 = X ++ .word .rem1 :: remarkTail post :=
+  rem_alias pre post A hq hr hb
+
+example : (lex "10 X=1 ' note".toList).2.map normTok = (lex "10 X=1 REM note".toList).2.map normTok := by
+  decide +kernel
+
+/-- C16 (2), parser: a line whose first significant token is `REM` or `'` parses to no statement
+    at all — whichever marker it is, and whatever follows it -/
+theorem remark_line_parses_empty (ln : Option Nat) (W : List Token) (r : Token) (Y : List Token)
+    (hW : Lemmas.C19.AllWs W) (hr : Parse.isRem r = true) : Parse.parse ln (W ++ r :: Y) = .ok [] :=
+  parse_remark_line ln W r Y hW hr
+
+example (Y Y' : List Token) :
+    Parse.parse (some 10) (.whitespace 1 :: .word .rem1 :: Y) = Parse.parse (some 10) (.word .rem2 :: Y') := by
+  exact (remark_line_parses_empty (some 10) [.whitespace 1] (.word .rem1) Y
+      (by intro t h; simp at h; exact ⟨1, h⟩) rfl).trans
+    (remark_line_parses_empty (some 10) [] (.word .rem2) Y' (by intro t h; simp at h) rfl).symm
+
+/-- C16 (3), `GO TO` ≡ `GOTO` in any context: after a junction, `GO`, a non-empty run of blanks and
+    `TO` lex to the VERY SAME line as `GOTO`, provided no letter follows (`GO TO10` is fine) -/
+theorem goto_in_context (pre post blanks : Str) (A : List Token) (hg : Cut (lineBody pre) A 'G')
+    (hbl : ∀ c ∈ blanks, isWs c = true) (hne : blanks ≠ [])
+    (hpost : ∀ c ∈ post.head?, isAlpha c = false) :
+    lex (pre ++ ("GO".toList ++ (blanks ++ ("TO".toList ++ post)))) = lex (pre ++ ("GOTO".toList ++ post)) :=
+  goto_alias pre post blanks A hg hbl hne hpost
+
+/-- C16 (3), `GO SUB` ≡ `GOSUB`: `SUB` is not a reserved word, so what follows must be a boundary
+    (not a letter, digit or type suffix: `GO SUB10` is `GO`,`SUB10`, see `go_sub_glued`) -/
+theorem gosub_in_context (pre post blanks : Str) (A : List Token) (hg : Cut (lineBody pre) A 'G')
+    (hbl : ∀ c ∈ blanks, isWs c = true) (hne : blanks ≠ []) (hpost : AlphaBoundary post) :
+    lex (pre ++ ("GO".toList ++ (blanks ++ ("SUB".toList ++ post)))) = lex (pre ++ ("GOSUB".toList ++ post)) :=
+  gosub_alias pre post blanks A hg hbl hne hpost
+
+example (post : Str) (hpost : ∀ c ∈ post.head?, isAlpha c = false) :
+    lex ("10 IF A THEN ".toList ++ ("GO".toList ++ (" \t ".toList ++ ("TO".toList ++ post)))) =
+      lex ("10 IF A THEN ".toList ++ ("GOTO".toList ++ post)) :=
+  goto_in_context "10 IF A THEN ".toList post " \t ".toList _
+    (thenCtx_body ▸ thenCtx_cut 'G' (by decide)) (by decide) (by decide) hpost
+
+/-- `GO SUB10` is not `GOSUB10` (whereas `GO TO10` is `GOTO10`): the digits are glued to the name `SUB` -/
+theorem go_sub_glued :
+    sig (lex "GO SUB10".toList).2 = [.ident (.plain "GO".toList), .ident (.plain "SUB10".toList)] ∧
+    sig (lex "GOSUB10".toList).2 = [.word .gosub, .literal (.integer "10".toList)] ∧
+    lex "GO TO10".toList = lex "GOTO10".toList := by decide +kernel
+
+/-- C16 (4), comparison operators: any two spellings of the same operator (`CmpSpelling`: `<=` `=<`
+    `>=` `=>` `<>`, and each of the six pairs `< =`, `= <`, `> =`, `= >`, `< >`, `> <` with one run of
+    blanks) give the VERY SAME line, between a junction whose tokens do not end in a comparison
+    character (nor in one followed by a blank run) and a rest of the line that does not start with
+    one (nor with a blank run followed by one) -/
+theorem cmp_in_context {t : Token} (s s' : CmpSpelling t) (pre post : Str) (A : List Token)
+    (hcut : Cut (lineBody pre) A s.c1) (hcut' : Cut (lineBody pre) A s'.c1) (hA : cmpAtEnd A = false)
+    (hV : cmpAtStart (lexFrom post false) = false) :
+    lex (pre ++ (s.text ++ post)) = lex (pre ++ (s'.text ++ post)) :=
+  cmp_alias_eq s s' pre post A hcut hcut' hA hV
+
+example : (leSpelling true 0).text = "=<".toList ∧ (leSpelling false 2).text = "<  =".toList ∧
+    (geSpelling true 1).text = "= >".toList ∧ (neSpellingRev 0).text = "> <".toList := by decide
+
+/-- the tokens of `IF A` -/
+def ifCtx : List Token := [.word .if, .whitespace 1, nameA]
+
+theorem ifCtx_cut (c : Char) (hc : c = '=' ∨ c = '<' ∨ c = '>') : Cut "IF A".toList (ifCtx.flatMap rawOf) c := by
+  rw [show "IF A".toList = printTokens ifCtx from by decide]
+  rcases hc with rfl | rfl | rfl <;>
+  exact Cut.of_printTokens ifCtx _
+    ⟨by decide, by decide, trivial, (by show AlphaBoundary _; decide),
+     by decide, by decide, (by show 0 < 1; decide), (by show ∀ c ∈ _, _; decide),
+     by decide, by decide, nameA_printable, (by show AlphaBoundary _; decide), trivial⟩
+
+theorem ifCtx_body : lineBody "10 IF A".toList = "IF A".toList := by decide +kernel
+
+/-- … `10 IF A=<…` and `10 IF A<   =…` are the same line, whatever follows that does not start with a
+    comparison character -/
+example (post : Str) (hV : cmpAtStart (lexFrom post false) = false) :
+    lex ("10 IF A".toList ++ ("=<".toList ++ post)) = lex ("10 IF A".toList ++ ("<   =".toList ++ post)) :=
+  cmp_in_context (leSpelling true 0) (leSpelling false 3) "10 IF A".toList post _
+    (ifCtx_body ▸ ifCtx_cut '=' (by decide)) (ifCtx_body ▸ ifCtx_cut '<' (by decide)) (by decide) hV
+
+/-- the side condition of (4) cannot be dropped (known finding K5, `Thm.C05.adjacent_comparisons_not_faithful`):
+    next to another comparison character the greedy collapse pairs differently -/
+theorem cmp_side_condition_needed :
+    (lex "A<=<B".toList).2 = [nameA, .operator .lessEqual, .operator .less, .ident (.plain ['B'])] ∧
+    (lex "A<<=B".toList).2 = [nameA, .operator .less, .operator .lessEqual, .ident (.plain ['B'])] := by
+  decide +kernel
+
+/-- `><` is NOT a spelling of `<>` (only `> <`, with a blank, is collapsed) -/
+theorem greater_less_needs_blank :
+    (lex "A><B".toList).2 = [nameA, .operator .greater, .operator .less, .ident (.plain ['B'])] ∧
+    (lex "A> <B".toList).2 = [nameA, .operator .notEqual, .ident (.plain ['B'])] := by decide +kernel
+
+/-- C16 (5), optional LET, on the parser: if the assignment `ts` (first significant token: a name)
+    parses as the statement `r` when read from the column at which the word `LET` ends, then
+    `LET ts` parses as the same statement — same variable, same expression with the same columns,
+    same parser state afterwards — except that the statement's own column is that of `LET`.
+    (Statement level, same fuel.  The whole-line corollary `parse ln (LET :: ts)` vs `parse ln ts`
+    needs every column shifted by three and the line's fuel changed by six; neither lift is proved.) -/
+theorem let_is_optional (fuel : Nat) (ts : List Token) (cs ce x : Nat) (i : TIdent) (st1 : Parse.PState)
+    (hp : Parse.peek.run (Lemmas.RangeForms.st0 ts x (ce + 3)) = .ok (some (.ident i), st1))
+    (r : Stmt) (st' : Parse.PState)
+    (hbare : (Parse.statement (fuel + 1)).run (Lemmas.RangeForms.st0 ts x (ce + 3)) = .ok (r, st')) :
+    (Parse.statement (fuel + 1)).run (Lemmas.RangeForms.st0 (.word .let :: ts) cs ce) =
+      .ok (reCol (ce, ce + 3) r, st') :=
+  let_optional fuel ts cs ce x i st1 hp r st' hbare
+
+example (v : Variable) (e : Expr) : reCol (0, 3) (.let (3, 4) v e) = .let (0, 3) v e := rfl
+
+/-- C16 (6), optional blanks: a line printed with ANY legal placement of blanks between its tokens
+    (none at all included) lexes to exactly those tokens, one blank inserted between adjacent
+    word-like tokens (`sepRec`).  `packLegal` is decidable: every run of adjacent letter tokens must
+    scan back to itself (`alphabetic run = run`), every other token must be followed by text it
+    cannot absorb, and the four post-passes must have nothing to do. -/
+theorem packed_line (L : List Token) (hP : AllPrintable L) (hk : packLegal L = true)
+    (h0 : StartsPlain (printTokens L)) : lex (printLine none L) = (none, sepRec L) :=
+  lex_packed_direct L hP hk h0
+
+theorem packed_line_numbered (n : Nat) (hn : n ≤ 65529) (L : List Token) (hP : AllPrintable L)
+    (hk : packLegal L = true) : lex (printLine (some n) L) = (some n, sepRec L) :=
+  lex_packed_numbered n hn L hP hk
+
+/-- … hence the canonical listing of a line and the same line without any blank mean the same -/
+theorem packed_same_meaning (n : Nat) (hn : n ≤ 65529) (ts : List Token) (h : Canon ts)
+    (hk : packLegal (sig ts) = true) :
+    sig (lex (printLine (some n) (sig ts))).2 = sig (lex (printLine (some n) ts)).2 :=
+  (packed_same_numbered n hn ts h hk).2.2
+
+theorem name_printable (c : Char) (h : isUpperAlpha c = true) (hk : NoKeyword [c]) :
+    Printable (.ident (.plain [c])) :=
+  ⟨⟨[c], [], none⟩, ⟨by intro x hx; simp at hx; subst hx; exact isAlpha_of_isUpperAlpha _ h, by simp,
+    by simp, by simp, by simpa [Name.base, upper_of_isUpperAlpha c h] using hk⟩,
+    by simp [Name.token, Name.base, upper_of_isUpperAlpha c h], by simp [upper_of_isUpperAlpha c h]⟩
+
+/-- `IF A THEN PRINT B` without its blanks -/
+def packedIf : List Token :=
+  [.word .if, nameA, .word .then, .word .print, .ident (.plain ['B'])]
+
+example : printTokens packedIf = "IFATHENPRINTB".toList ∧ packLegal packedIf = true := by decide +kernel
+
+example : lex "IFATHENPRINTB".toList = (none, sepRec packedIf) := by
+  have := packed_line packedIf (by
+    intro t ht _ _
+    simp [packedIf] at ht
+    rcases ht with rfl | rfl | rfl | rfl | rfl
+    · trivial
+    · exact nameA_printable
+    · trivial
+    · trivial
+    · exact name_printable 'B' (by decide) (by decide +kernel)) (by decide +kernel) (by decide +kernel)
+  rwa [show printLine none packedIf = "IFATHENPRINTB".toList from by decide +kernel] at this
+
+example : sepRec packedIf = [.word .if, .whitespace 1, nameA, .whitespace 1, .word .then, .whitespace 1,
+    .word .print, .whitespace 1, .ident (.plain ['B'])] := by decide
+
+/-- `FOR I=1 TO 10` without its blanks: a reserved word may be followed by a name or a number -/
+example : packLegal [.word .for, .ident (.plain ['I']), .operator .equal, .literal (.integer ['1']),
+    .word .to, .literal (.integer ['1', '0'])] = true := by decide +kernel
+
+/-- legality of a letter run is NOT a property of its adjacent pairs: `S`,`TO` and `TO`,`P` pack,
+    `S`,`TO`,`P` packs to `STOP`; two names, or a name and a number, never pack -/
+theorem packing_not_pairwise :
+    packLegal [.ident (.plain ['S']), .word .to] = true ∧ packLegal [.word .to, .ident (.plain ['P'])] = true ∧
+    packLegal [.ident (.plain ['S']), .word .to, .ident (.plain ['P'])] = false ∧
+    (lex "STOP".toList).2 = [.word .stop] ∧
+    packLegal [nameA, .ident (.plain ['B'])] = false ∧ packLegal [nameA, .literal (.integer ['1'])] = false := by
+  decide +kernel
+
+/-- C16 (7), combined: `Step` is one respelling (`?`, `'`, `GO TO`, `GO SUB`, a comparison operator,
+    letter case outside strings and remarks, another legal placement of blanks), each with the side
+    condition of its theorem; any finite chain of steps, in either direction, leaves the `meaning`
+    of the line — line number and significant tokens up to the remark marker — unchanged … -/
+theorem respelled_same_meaning {a b : Str} (h : Respelled a b) : meaning a = meaning b := h.meaning_eq
+
+/-- … and the parser, given what it gets to see of either line, returns the same statements (or
+    the same error) -/
+theorem respelled_parse {a b : Str} (h : Respelled a b) :
+    Parse.parse (meaning a).1 (meaning a).2 = Parse.parse (meaning b).1 (meaning b).2 := h.parse_eq
+
+/-- `IF A THEN PRINT B`, as listed -/
+def listedIf : List Token :=
+  [.word .if, .whitespace 1, nameA, .whitespace 1, .word .then, .whitespace 1, .word .print, .whitespace 1,
+    .ident (.plain ['B'])]
+
+/-- one step: the listed line and the packed line -/
+example : meaning "IF A THEN PRINT B".toList = meaning "IFATHENPRINTB".toList := by
+  have hp : AllPrintable packedIf := by
+    intro t ht _ _
+    simp [packedIf] at ht
+    rcases ht with rfl | rfl | rfl | rfl | rfl
+    · trivial
+    · exact nameA_printable
+    · trivial
+    · trivial
+    · exact name_printable 'B' (by decide) (by decide +kernel)
+  have hl : AllPrintable listedIf := by
+    intro t ht h1 h2
+    by_cases hb : isBlank t = true
+    · simp [listedIf] at ht
+      rcases ht with rfl | rfl | rfl | rfl | rfl | rfl | rfl | rfl | rfl <;> first | (show 0 < 1; decide) | (simp [isBlank, nameA] at hb)
+    · exact hp t (by
+        have : t ∈ sig listedIf := List.mem_filter.2 ⟨ht, by simpa using hb⟩
+        rwa [show sig listedIf = packedIf from by decide] at this) h1 h2
+  have := Step.meaning_eq (Step.blanksDirect listedIf packedIf hl hp (by decide +kernel) (by decide +kernel)
+    (by decide) (by decide +kernel) (by decide +kernel))
+  rwa [show printLine none listedIf = "IF A THEN PRINT B".toList from by decide +kernel,
+    show printLine none packedIf = "IFATHENPRINTB".toList from by decide +kernel] at this
+
+/-- two steps: `10 IF A THEN ?X` ⟶ `10 IF A THEN PRINT X` ⟵ (case) `10 if a then print x` -/
+example : meaning "10 IF A THEN ?X".toList = meaning "10 if a then print x".toList :=
+  respelled_same_meaning
+    (.fwd (.print "10 IF A THEN ".toList "X".toList " ".toList _
+        (thenCtx_body ▸ thenCtx_cut '?' (by decide)) (thenCtx_body ▸ thenCtx_cut 'P' (by decide))
+        ⟨by decide, by intro h; exact absurd h (by decide)⟩)
+      (.bwd (.case "10 if a then print x".toList "10 IF A THEN PRINT X".toList (by decide +kernel)
+        (by decide +kernel)) (.refl _)))
 
 end C16
 end Thm
